@@ -9,8 +9,9 @@ git diff -- guard/src > /tmp/confirm.$$.diff
 if ! diff -q /tmp/confirm.$$.diff MUTANT.diff >/dev/null; then echo "NOTE: MUTANT.diff differs from the worktree diff; using the worktree diff"; cp /tmp/confirm.$$.diff MUTANT.diff; fi
 echo "== build + tests with the change"
 cargo test --workspace --no-fail-fast --offline 2>&1 | grep -E "^test result" | awk '{p+=$4; f+=$6} END {print "passed",p,"failed",f}'
-RUST_TEST_THREADS=1 cargo test --workspace --no-fail-fast --offline 2>&1 | grep -E "^test .* FAILED$" | sort > /tmp/confirm.$$.failed
-echo "failing tests: $(wc -l < /tmp/confirm.$$.failed) (baseline 15)"; grep -v "validate_tests::" /tmp/confirm.$$.failed
+# names from the "failures:" summary blocks (robust against interleaved test output)
+cargo test --workspace --no-fail-fast --offline 2>&1 | grep -E "^    [A-Za-z_0-9]+::[A-Za-z_0-9:]+$" | sed 's/^ *//' | sort -u > /tmp/confirm.$$.failed
+if diff -q /tmp/confirm.$$.failed /verif/baseline_always_fail.txt >/dev/null; then echo "failing tests: exactly the baseline's 15"; else echo "FAILING TEST SET DIFFERS FROM BASELINE:"; diff /tmp/confirm.$$.failed /verif/baseline_always_fail.txt; fi
 echo "== demo with the change"; bash DEMO.sh >/tmp/confirm.$$.demo1 2>&1; echo "exit $?"
 git apply -R MUTANT.diff || { echo "cannot revert"; exit 2; }
 echo "== demo without the change"; bash DEMO.sh >/tmp/confirm.$$.demo0 2>&1; echo "exit $?"
